@@ -99,6 +99,21 @@ def expand_tags(tags):
     return out
 
 
+def scan_assumed_specs():
+    """mechanical scan of the contract / spec / vxlib sources for everything Verus takes on trust: `assume_specification`s (specs of std / arrayvec
+    functions and of derived or std-trait impls that stay outside verus!) and the `external_body` primitives of vxlib/vx.rs"""
+    names = set(); nprim = 0
+    for f in v_inputs():
+        if not f.endswith(('.vx', '.rs')): continue
+        t = open(f).read()
+        for m in re.finditer(r'assume_specification[^\[;]*\[\s*([^\]]+?)\s*\]', t):
+            names.add(re.sub(r'\s+', ' ', m.group(1)))
+        if f.endswith('vx.rs'): nprim = len(re.findall(r'#\[verifier::external_body\]', t))
+    out = ['assumed specification (assume_specification, not verified): ' + n for n in sorted(names)]
+    out.append('vxlib/vx.rs: %d external_body primitives (value specs of the std functions behind them checked on the full domain by kani/src/h_vxlib.rs)' % nprim)
+    return out
+
+
 def run_verus(force=False, slow=False):
     """weave + verify the whole crate once; cached by content hash of (current /repo source, contracts, spec, tools);
     slow=True (thorough tier) also verifies the functions marked @slow, which the quick tier keeps as assumed contracts"""
@@ -570,6 +585,8 @@ def decide(prop, tier, seed):
     ev_units = []
     obligations = discharged = 0
     trusted = list(U.TRUSTED_COMMON)
+    if spec.get('v', True):
+        trusted += scan_assumed_specs()
     samples = []
     fns_under_contract = []
     checker_cmds = []
@@ -598,6 +615,15 @@ def decide(prop, tier, seed):
         if v['spec_failed']:
             undecided.append('specification-side lemma(s) failed: ' + ', '.join(v['spec_failed'][:5]))
         nfn = 0
+        # lemmas over contracts (exec functions `vx_cNN_*` in @spec blocks that only call two functions under contract and state the property as
+        # their postcondition): verified in the same run; a failure of one has no owner among the functions under contract and makes the whole
+        # run 'compile_error' -> UNDECIDED above, so reaching this point with status ok means they hold
+        if v['status'] == 'ok':
+            for cf in v_inputs():
+                if not cf.endswith('.vx'): continue
+                for lm in re.findall(r'pub fn (vx_c%s_\w+)' % prop[1:].lower(), open(cf).read()):
+                    fns_under_contract.append('lemma over contracts: %s (%s)' % (lm, os.path.relpath(cf, VERIF)))
+                    obligations += 1; discharged += 1
         for k, f in sorted(mine.items()):
             if f.get('demoted'):
                 # the function changed shape (anchors of the proof annotations lost, contract no longer compiles): Verus verified
